@@ -9,6 +9,7 @@ import (
 	"github.com/hattya/go.sh/ast"
 	"github.com/hattya/go.sh/interp"
 	"github.com/hattya/go.sh/parser"
+	"github.com/hattya/go.sh/pattern"
 )
 
 func init() {
@@ -16,11 +17,12 @@ func init() {
 }
 
 type quoteCase struct {
-	S   []string `json:"s"`
-	Sq  []string `json:"sq"`
-	Dq  []string `json:"dq"`
-	Bs  []string `json:"bs"`
-	Mix []string `json:"mix"`
+	S    []string   `json:"s"`
+	Sq   []string   `json:"sq"`
+	Dq   []string   `json:"dq"`
+	Bs   []string   `json:"bs"`
+	Mix  []string   `json:"mix"`
+	Pert [][]string `json:"pert"` // perturbations of S: strings the pattern must not match
 }
 
 type quoteObs struct {
@@ -69,6 +71,7 @@ func runQuote(c quoteCase) (o quoteObs) {
 				}
 			}
 		}
+		per["realmatch"] = [][]string{{"none"}}
 		for _, m := range quoteModes {
 			if w == nil {
 				msg := "no single word"
@@ -88,6 +91,24 @@ func runQuote(c quoteCase) (o quoteObs) {
 				out = append(out, toSymbols(f))
 			}
 			per[m.name] = out
+			if m.name == "pattern" && len(fs) == 1 {
+				// the real matcher on the pattern: the whole of s, and none of the perturbations
+				hit := []string{}
+				// the pattern matches the whole of x iff the largest prefix it matches is x
+				whole := func(x string) bool {
+					g, err := pattern.Match([]string{fs[0]}, pattern.Prefix|pattern.Largest, x)
+					return err == nil && g == x
+				}
+				if whole(symbols(c.S)) {
+					hit = append(hit, "self")
+				}
+				for _, p := range c.Pert {
+					if x := symbols(p); x != "" && whole(x) {
+						hit = append(hit, "pert:"+x)
+					}
+				}
+				per["realmatch"] = [][]string{hit}
+			}
 		}
 		o.Obs[name] = per
 	}
